@@ -1108,6 +1108,8 @@ impl SubRule {
                         }
                     } else {
                         res_word.syllables.last_mut().unwrap().segments.push_back(*seg);
+                        // `pos` is past the last syllable, the segment went to the end of the word
+                        pos = SegPos::new(res_word.syllables.len() - 1, res_word.syllables.last().unwrap().segments.len() - 1);
                         if let Some(m) = mods {
                             let lc = res_word.apply_seg_mods(&self.alphas, m, pos, state.position)?;
                             if lc > 0 {
@@ -1225,6 +1227,8 @@ impl SubRule {
                                     }
                                 } else {
                                     res_word.syllables.last_mut().unwrap().segments.push_back(*seg);
+                                    // `pos` is past the last syllable, the segment went to the end of the word
+                                    pos = SegPos::new(res_word.syllables.len() - 1, res_word.syllables.last().unwrap().segments.len() - 1);
                                     if let Some(m) = mods {
                                         let lc = res_word.apply_seg_mods(&self.alphas, m, pos, state.position)?;
                                         if lc > 0 {
@@ -1823,6 +1827,8 @@ impl SubRule {
                             }
                         } else {
                             res_word.syllables.last_mut().unwrap().segments.push_back(*seg);
+                            // `pos` is past the last syllable, the segment went to the end of the word
+                            pos = SegPos::new(res_word.syllables.len() - 1, res_word.syllables.last().unwrap().segments.len() - 1);
                             if let Some(m) = mods {
                                 let lc = res_word.apply_seg_mods(&self.alphas, m, pos, z.position)?;
                                 if lc > 0 {
@@ -1944,6 +1950,8 @@ impl SubRule {
                                         }
                                     } else {
                                         res_word.syllables.last_mut().unwrap().segments.push_back(*seg);
+                                        // `pos` is past the last syllable, the segment went to the end of the word
+                                        pos = SegPos::new(res_word.syllables.len() - 1, res_word.syllables.last().unwrap().segments.len() - 1);
                                     }
                                     if let Some(m) = mods {
                                         let lc = res_word.apply_seg_mods(&self.alphas, m, pos, num.position)?;
